@@ -61,3 +61,20 @@ Definition bondings_okb (g : graph) : bool :=
 Definition typed_gb (g : graph) : bool :=
   forallb (fun n => match aget (S "fragid") (na n), aget (S "mapping") (na n) with
                     | Some (VList _), Some (VList _) => true | _, _ => false end) g.
+
+(** the hydrogen count of a merged atom (/repo e7bad38): min of the two copies' counts when both carry one
+    (Python's min: the kept atom's value unless the removed one's is strictly smaller), else the kept atom's *)
+Definition hnum (a : attrs) : Prop :=
+  match aget squash_min_attr a with Some v => exists h, half_of_num v = Ok h | None => True end.
+Definition hcount_merged (au av : attrs) : option pyval :=
+  match aget squash_min_attr au, aget squash_min_attr av with
+  | Some a, Some b =>
+      match half_of_num a, half_of_num b with
+      | Ok ha, Ok hb => Some (if hb <? ha then b else a)
+      | _, _ => Some a
+      end
+  | _, _ => aget squash_min_attr au
+  end.
+Definition hnumb (a : attrs) : bool :=
+  match aget squash_min_attr a with Some v => match half_of_num v with Ok _ => true | Err _ => false end | None => true end.
+Definition hnum_gb (g : graph) : bool := forallb (fun n => hnumb (na n)) g.
